@@ -136,6 +136,15 @@ def run(ctx: Ctx) -> None:
            ("Cube", "direction", (STensor.from_nested([[0, -1], [1, 0]]),)), ("Cube", "extent", (STensor.from_flat([4, 5], [2]),)),
            ("ImageBatch", "grid", "G"), ("Image", "grid", "G1"), ("FlowFields", "axes", "AX"), ("FlowField", "axes", "AX"),
            ("ImageBatch", "crop", (1,)), ("Image", "pad", (1,))]
+    # every spatial operation of the image types, with explicit options that differ from the receiver's own settings
+    FLIP = {"align_corners": False}  # the scenario grids are built with the default align_corners=True
+    for owner in ("ImageBatch", "Image", "FlowFields"):
+        acc += [(owner, "pyramid", ((2,), FLIP)), (owner, "pyramid", ((1,), {})), (owner, "resize", (((5, 3),), FLIP)),
+                (owner, "downsample", ((1,), FLIP)), (owner, "upsample", ((1,), FLIP)), (owner, "center_crop", (((4, 2),), {})),
+                (owner, "center_pad", (((8, 6),), {})), (owner, "region_of_interest", (((1, 1), (3, 2)), {})), (owner, "avg_pool", ((2,), {})),
+                (owner, "sample", "G" if owner != "Image" else "G1")]
+    acc += [("ImageBatch", "narrow", ((3, 1, 2), {})), ("ImageBatch", "resample", ((STensor.from_flat([3, 3], [2]),), {})) if False else
+            ("ImageBatch", "narrow", ((2, 0, 2), {}))]
     for name, meth, args in acc:
         cls = {"Grid": Grid, "Cube": Cube, "ImageBatch": IB, "Image": IM, "FlowFields": FF, "FlowField": F1}[name]
         fm = prog.find_method(cls, meth)
@@ -152,13 +161,17 @@ def run(ctx: Ctx) -> None:
                 a = (it.new(Grid, size=(6, 4), spacing=5),)
             elif args == "AX":
                 a = (it.enum(Axes, "CUBE"),)
-            y = it.method(x, meth, *a)
+            kw = {}
+            if isinstance(a, tuple) and len(a) == 2 and isinstance(a[1], dict) and isinstance(a[0], tuple):
+                a, kw = a
+            y = it.method(x, meth, *a, **kw)
             if y is x:
                 return False, f"{name}.{meth}(x) returned the receiver itself"
             if snapshot(x) != before:
                 return False, f"{name}.{meth}(x) changed the object it was called on"
             return True, ""
-        _guard(ctx, "T15.accessor", f"{name}.{meth}", fm, f"accessor {name}.{meth}", tha)
+        desc = "" if not (isinstance(args, tuple) and len(args) == 2 and isinstance(args[1], dict)) else f" args={args[0]} {args[1]}"
+        _guard(ctx, "T15.accessor", f"{name}.{meth}{desc}", fm, f"accessor {name}.{meth}{desc}", tha)
 
 
 def run_transforms(ctx: Ctx) -> None:
